@@ -245,8 +245,13 @@ def tb7(facts, rep):
             info = call_info(t)
             if info and info['fn'].endswith('::build_partlevel'):
                 shapes.setdefault('build', set()).add(shape(nb, nb.expr_operand(t['args'][1], inline_user='force')))
+    from . import inline
+    keep = lambda pth: pth.rsplit('::', 1)[-1] in ('new', 'rank', 'build_partlevel', 'prank', 'check_overflow')
     rb = facts.method(WM + '::WaveletMatrix', 'rank')
     bp = facts.body(WM + '::build_partlevel')
+    # private helpers (e.g. an extracted "bit of the code at this level" function) are analysed in place
+    rb = inline.inlined(facts, rb, keep) if rb is not None else None
+    bp = inline.inlined(facts, bp, keep) if bp is not None else None
     for nm, bb_ in (('query', rb), ('partlevel', bp)):
         if bb_ is None:
             continue
